@@ -119,6 +119,7 @@ def bare_roundtrip(ctx, inst, s0, case):
 
 def one_instance(ctx, name, cls, profile, seedstr, forms):
     case = {"cls": name, "profile": profile, "seedstr": seedstr}
+    ctx.current_case = case
     try:
         inst = instances.build(cls, random.Random(seedstr), profile)
     except instances.ConstructorRejected as e:
@@ -163,6 +164,8 @@ def run_shard(ctx):
     online.install_init_monitor()
     online.install_to_etree_monitor()
     classes = list(ref_decl.all_classes().items())
+    if ctx.shard % 2 == 1:
+        ctx.count("base_classes_used_first", ref_decl.touch_base_classes())
     thorough = ctx.tier == "thorough"
     nrandom = 8 if not thorough else 220
     for ci, (name, cls) in enumerate(classes):
